@@ -159,6 +159,13 @@ func CellQuantity(an *ir.Analysis, addr *ir.Term) Quantity {
 	return Quantity{
 		StartSym: start,
 		ValueAt: func(p *ir.Path, i int) *ir.Term {
+			if i >= len(p.Steps) && p.End != nil {
+				// at the end of the path the engine's own memory is authoritative (a cell may have been written as
+				// part of a whole-struct store)
+				if v := p.End.MemAt(addr); v != nil {
+					return v
+				}
+			}
 			v := start(p)
 			for j := 0; j < i && j < len(p.Steps); j++ {
 				s := &p.Steps[j]
